@@ -4,6 +4,10 @@ import json, os, sys
 HERE = os.path.dirname(os.path.abspath(__file__))
 
 CHECKS = {
+ 'C02': dict(technique='runtime monitor: tap on the top-level instance\'s check() records the exception raised inside the guarded region and compares it with what escapes the call (class, <br/> message, generic message naming the submission); class table for constructed faults; CPU watchdog per call',
+             text='Exploration by runtime monitoring: generated configurations of every grader class and nesting (debug off) are called with hostile strings (grammar-derived formulas pushed to poles/overflow/0-over-0/complex-where-real, shape-incompatible arrays, bracket damage, nesting depth 20000, 3000-term sums, unknown names, wrong arities, blank list items, stray delimiters, non-ASCII digits/operators/whitespace, control characters), with expect in {None, valid, malformed}, and with non-text / wrongly nested input objects on fresh instances (configured and expect-inferring); the evidence lists the inner exception classes actually provoked (ValueError, TypeError, RecursionError, IndexError, LinAlgError, OverflowError ...) and seen being wrapped.',
+             note='Trusted: readings R3; exclusions recorded in evidence assumptions (SumGrader limit fields and list lengths kept small because the work is polynomial in a student-chosen size).',
+             ref='DESIGN.md section 4, C02'),
  'C01': dict(technique='runtime monitor: structural invariant on every returned result over a generated configuration grammar of all grader classes; debug-leak canaries (distinctive literals in author answers, scripted sample values, instructor variable names, log markers) with debug=True as positive control',
              text='Exploration by runtime monitoring: tens of thousands of calls on generated configurations of String, Formula, Numerical, Matrix, SingleList (nested), Interval, Sum and List graders (ordered/unordered, subgrader lists, groupings, several answer lists; alternatives with partial credit, messages, pinned ok, expect tuples, comparers, attempt-based credit x attempts, debug on/off) with right, partly right, wrong, malformed, empty and unicode-garbage inputs; each returned value is checked for exact key sets, one entry per input, grade type/range, msg type, ok/grade agreement and absence (presence when debug=True) of debug material.',
              note='Trusted: readings R1 (SumGrader short form) and R2 (pinned ok); canary literals chosen not to occur in legitimate messages.',
